@@ -1369,6 +1369,8 @@ C20Liquidity(pre, e, post) ==
         locked but, being non-transferable, not handed over.
    (W2) PoolInitialized / PositionOpened events carry exactly what was created.
    (W3) Position bundles: created empty, with exactly one bundle token, held by the named owner, without mint authority.
+   (W6) SDK: collect_fees_quote / collect_rewards_quote on the state before an update_fees_and_rewards equal what the program then
+        records as owed to the position (fees; rewards at the instruction's clock).
    (W4) migrate_repurpose_reward_authority_space: possible exactly once per old-layout pool; it clears the two repurposed
         fields (control flags become 0, the requirement does not spring into existence) and changes nothing else.       *)
 Wider(name, c) ==
@@ -1451,6 +1453,22 @@ WiderOK(pre, e, post) ==
                 /\ ChangedKeys(e.diff, "bundle") = {b} /\ ChangedKeys(e.diff, "pos") = {} /\ ChangedKeys(e.diff, "pool") = {})
      ELSE TRUE
   /\ IF ChangedKeys(e.diff, "pos") # {} \/ ChangedKeys(e.diff, "ta") # {} THEN W5State(post) ELSE TRUE
+  /\ IF e.name = "update_fees_and_rewards" /\ "sdkOwed" \in DOMAIN e /\ e.sdkOwed.present
+     THEN LET k   == Id(e, "position")
+              x   == pre.pos[k]
+              y   == post.pos[k]
+              u   == e.sdkOwed
+              pl  == pre.pool[x.pool]
+              dt  == e.now -- pl.rewardTs
+              \* regimes in which program and SDK knowingly part: the program drops a credit whose product does not fit 128 bits (the
+              \* SDK multiplies in 256 bits) and skips a reward interval whose emissions x seconds do not fit (the SDK refuses)
+              dropA == WrapMod \preceq (x.liq \otimes WSub(FeeInside(pre, x.pool, x, TRUE), x.cpA))
+              dropB == WrapMod \preceq (x.liq \otimes WSub(FeeInside(pre, x.pool, x, FALSE), x.cpB))
+              ovf   == \E i \in 1..3 : WrapMod \preceq (dt \otimes pl.rewards[i].emissions)
+          IN /\ Wider("W6.sdk_fee_quote_equals_owed_after_update", (dropA \/ dropB) \/ (u.feeOk /\ u.feeA \doteq y.owedA /\ u.feeB \doteq y.owedB))
+             /\ Wider("W6.sdk_reward_quote_equals_owed_after_update", (u.rwOk /\ ~ovf) => \A i \in 1..3 : u.rw[i] \doteq y.rw[i].owed)
+             /\ Wider("W6.sdk_reward_quote_refuses_only_on_overflow", u.rwOk \/ ovf)
+     ELSE TRUE
   /\ IF e.name = "migrate_repurpose_reward_authority_space"
      THEN LET q == Id(e, "whirlpool") IN
           /\ Wider("W4.migration_only_of_old_layout", ~pre.pool[q].ext2zero)
